@@ -176,35 +176,10 @@ Definition corr_b (c : case) : bool :=
 
 (* ---- oracle ----------------------------------------------------------------------------- *)
 (** owner and exchange name of an index, read from the observed global tables *)
-Definition own_instruments (x : indexed) (e : N) : list (N * N) :=
-  flat_map (fun kv : N * instr (N * N) N =>
-              if N.eqb (snd (i_ex (snd kv))) e then [(fst kv, i_ne (snd kv))] else []) (x_instruments x).
-Definition own_assets (x : indexed) (e : N) : list (N * N) :=
-  flat_map (fun kv : N * akey =>
-              if N.eqb (fst (snd kv)) e then [(fst kv, snd (snd (snd kv)))] else []) (x_assets x).
-Definition name_of (own : list (N * N)) (k : N) : option N :=
-  option_map snd (find (fun kn => N.eqb (fst kn) k) own).
-Definition index_of (own : list (N * N)) (n : N) : option N :=
-  option_map fst (find (fun kn => N.eqb (snd kn) n) own).
 Definition exchange_index_of (x : indexed) (e : N) : option N :=
   option_map fst (find (fun kv => N.eqb (snd kv) e) (x_exchanges x)).
 
-(** index -> name probes: a translated index is an own index and carries its own name; an own
-    index translates when names are distinct; name -> index probes invert them *)
-Definition names_ok (hyp : bool) (own : list (N * N)) (by_index by_name : list (N * option N)) : bool :=
-  forallb (fun q => match snd q with
-                    | Some n => oN_eqb (name_of own (fst q)) (Some n) &&
-                                forallb (fun q' => negb (N.eqb (fst q') n) || oN_eqb (snd q') (Some (fst q))) by_name
-                    | None => match name_of own (fst q) with
-                              | Some _ => negb hyp      (* an own index must translate *)
-                              | None => true            (* foreign / unknown: must not *)
-                              end
-                    end) by_index &&
-  forallb (fun q => match snd q with
-                    | Some k => oN_eqb (name_of own k) (Some (fst q)) &&
-                                forallb (fun q' => negb (N.eqb (fst q') k) || oN_eqb (snd q') (Some (fst q))) by_index
-                    | None => negb (memb N.eqb (fst q) (map snd own))
-                    end) by_name.
+(** [own_instruments], [own_assets], [name_of], [index_of], [names_ok] are shared with Corr/C11.v *)
 
 Definition spec_exchange (x : indexed) (e : N) (e' : N) : res unit N :=
   if N.eqb e' e then of_opt tt (exchange_index_of x e) else Err tt.
